@@ -794,7 +794,7 @@ def rollback_rearm(ctx, rid: str) -> None:
             inside = []
             for a, pol in guards_at(ex, call):
                 # atoms contributed inside the handler
-                if any(anc is h for anc in ancestors(ex, a)):
+                if any(anc is h for anc in ancestors(ex, getattr(a, "_origin", a))):
                     inside.append((a, pol))
             exit_set_membership = []
             other = []
@@ -1461,3 +1461,46 @@ def definition_is_read_only(ctx, rid: str, modules, what: str) -> None:
 
 
 DEFINITION_MUTATIONS_ACCEPTED: Dict[Tuple[str, str], str] = {}
+
+
+def no_mutation_while_iterating(ctx, rid: str, modules, want) -> None:
+    """A dict / set is not resized by the body of a loop that iterates over it directly (``for k, v in d.items(): del d[k]`` raises
+    ``RuntimeError: dictionary changed size during iteration`` on the next step).  Accepted: iteration over a copy
+    (``list(d.items())``, ``d.copy()``, ``sorted(d)``, a comprehension built first), and a removal that is the last thing the loop
+    does (followed by ``break`` / ``return`` on every path).  *want*: predicate on the container text selecting the rule's share."""
+    c, p = ctx.c, ctx.p
+    n = 0
+    for f in p.funcs_in(*modules):
+        for lp in own_nodes(f.node):
+            if not isinstance(lp, (ast.For, ast.AsyncFor)):
+                continue
+            it = lp.iter
+            base = it
+            if isinstance(base, ast.Call) and isinstance(base.func, ast.Attribute) and base.func.attr in ("items", "values", "keys") and not base.args:
+                base = base.func.value
+            if not isinstance(base, (ast.Name, ast.Attribute)):
+                continue          # a call (list(..), sorted(..), .copy()) or a literal: a snapshot
+            cont = norm(base)
+            if not want(cont):
+                continue
+            n += 1
+            g = cfg_of(f.node)
+            hits = []
+            for st in lp.body:
+                for x in ast.walk(st):
+                    m = None
+                    if isinstance(x, ast.Delete) and any(isinstance(t, ast.Subscript) and norm(t.value) == cont for t in x.targets):
+                        m = x
+                    elif isinstance(x, ast.Call) and isinstance(x.func, ast.Attribute) and norm(x.func.value) == cont and \
+                            x.func.attr in ("pop", "popitem", "clear", "add", "discard", "remove", "update", "setdefault"):
+                        m = x
+                    if m is None:
+                        continue
+                    # harmless when the loop is left right afterwards: no path from the mutation back to the loop header
+                    back = any(g.can_reach(i, h, follow_exc=False) for i in cfg_node_of(f, m) for h in g.nodes_of(lp))
+                    if back:
+                        hits.append(m)
+            c.ob(rid, not hits, f, f"iterate-and-resize:{cont[:40]}", f"the loop over {cont} does not resize it (or leaves at once)" if not hits else
+                 f"'{stmt_text(hits[0], 70)}' resizes {cont} inside 'for ... in {norm(it)[:50]}' and the loop goes on: the next step raises RuntimeError "
+                 f"(changed size during iteration) - iterate over a copy (list(...)) as the surrounding code does", hits[0] if hits else lp)
+    c.ob(rid, True, "engine", "iterate-and-resize-sites", f"{n} direct iterations over interpreter containers examined", None, nontrivial=False)
